@@ -100,7 +100,11 @@ def gen_spec(rng):
         spec['reps'] = rng.randrange(1, 4)
         spec['rng'] = 'global'
     if kind == 'choice':
-        if n == 0:
+        if rng.random() < 0.5:
+            # sampling few out of many (other code paths for sparse samples)
+            n = spec['n'] = rng.randrange(20, 121)
+            spec['size'] = rng.randrange(2, max(3, n // 8))
+        elif n == 0:
             spec['kind'] = 'once'
         else:
             spec['size'] = rng.randrange(1, n + 1)
@@ -110,8 +114,9 @@ def gen_spec(rng):
         spec['wrap'] = rng.choice(['zip_self', 'intersperse_self'])
     elif kind == 'reshuffle' and not spec.get('items') and rng.random() < 0.5:
         # consumers that freeze the reshuffle once per iteration: several
-        # iterators in flight are independent of each other there
-        spec['wrap'] = rng.choice(['prefetch_pool', 'catch'])
+        # iterators in flight are independent of each other there; and a copy()
+        # of the dataset iterated next to the original
+        spec['wrap'] = rng.choice(['prefetch_pool', 'catch', 'copy_pair'])
     return spec
 
 
@@ -148,6 +153,8 @@ def _binom(n, k):
 def gen(rng, tier, index):
     spec = gen_spec(rng)
     nit = rng.choice([1, 2, 2, 2, 3])
+    if spec['n'] > 12:
+        nit = 1
     m = out_len(spec) + 1          # +1: the call that raises StopIteration
     lens = [m] * nit
     allil = interleavings(lens, 60) if nit > 1 else [tuple([0] * m)]
@@ -187,8 +194,9 @@ def run(case):
     if case['spec'].get('wrap') == 'prefetch_pool':
         from .. import sim as S
         from lazy_dataset import parallel_utils as ldp
+        from lazy_dataset import core as ldc_
         sim = S.Sim({'policy': 'random', 'seed': case['spec']['seed']},
-                    trace_files=[ldp.__file__])
+                    trace_files=[ldp.__file__, ldc_.__file__])
         out = None
         with S.simulation(sim):
             try:
@@ -214,6 +222,7 @@ def _run(case, finish):
         ds = build(spec)
         nit = case['iters']
         its = [None] * nit
+        copies = {}
         outs = [[] for _ in range(nit)]
         done = [False] * nit
         started_at = [None] * nit
@@ -248,7 +257,12 @@ def _run(case, finish):
                 if done[i]:
                     continue
                 if its[i] is None:
-                    its[i] = iter(ds)
+                    if spec.get('wrap') == 'copy_pair' and i % 2 == 1:
+                        if copies.get(i) is None:
+                            copies[i] = ds.copy()
+                        its[i] = iter(copies[i])
+                    else:
+                        its[i] = iter(ds)
                     started_at[i] = step
                 try:
                     outs[i].append(next(its[i]))
@@ -275,7 +289,7 @@ def _run(case, finish):
                 end_i = finished_at[i] if finished_at[i] is not None else len(case['ops'])
                 if started_at[i] < started_at[j] < end_i:
                     overlap = True
-        if overlap and spec.get('wrap') in ('prefetch_pool', 'catch'):
+        if overlap and spec.get('wrap') in ('prefetch_pool', 'catch', 'copy_pair'):
             probes['iterators_over_freezing_consumer'] = 1
         if overlap:
             probes['second_iterator_started_while_first_in_flight'] = 1
@@ -286,7 +300,8 @@ def _run(case, finish):
             probes['three_iterators_in_flight'] = 1
         wrap = spec.get('wrap')
         internal_overlap = wrap in ('zip_self', 'intersperse_self') and spec['n'] > 0
-        freezing = wrap in ('prefetch_pool', 'catch')
+        # copy_pair with two iterators: the two run over different objects
+        freezing = wrap in ('prefetch_pool', 'catch') or (wrap == 'copy_pair' and nit == 2)
         exp, m = expected_counter(spec)
         kind = spec['kind']
 
